@@ -480,7 +480,9 @@ func (g *gen) svTok(depth, containers int, sb *strings.Builder) {
 	case 9:
 		sb.WriteString("X")
 	case 10:
-		switch r.Intn(4) {
+		switch r.Intn(7) {
+		case 4, 5, 6:
+			sb.WriteString(g.wrapTok())
 		case 0:
 			sb.WriteString("BT")
 		case 1:
@@ -558,6 +560,37 @@ func utf16Runes(k []uint16) []rune {
 		r[i] = rune(c)
 	}
 	return r
+}
+
+// methTok is a scripted valueOf / toString: inherited, an own non-callable property, or an own
+// function returning a primitive.
+func (g *gen) methTok() string {
+	r := g.r
+	switch r.Intn(6) {
+	case 0, 1:
+		return "i"
+	case 2:
+		return "n"
+	}
+	switch r.Intn(8) {
+	case 0:
+		return "rU"
+	case 1:
+		return "rN"
+	case 2:
+		return []string{"rT", "rF"}[r.Intn(2)]
+	case 3, 4:
+		return "r" + f64Tok([]float64{42, 3, 0, -1, 2.5, 11, math.Inf(1), math.NaN(), math.Copysign(0, -1), 1e21}[r.Intn(10)])
+	default:
+		return "rS" + unitsHex([][]uint16{asciiUnits("7"), asciiUnits("x"), asciiUnits(" 12 "), {}, asciiUnits("  "), asciiUnits("0x10"), asciiUnits("1e3"), asciiUnits("Infinity"), {0xe9, '<'}, asciiUnits("ab\tcd")}[r.Intn(10)]) + "."
+	}
+}
+
+func (g *gen) wrapTok() string {
+	if g.r.Bool() {
+		return "W" + f64Tok([]float64{1, 0, 2.5, 7}[g.r.Intn(4)]) + g.methTok() + g.methTok()
+	}
+	return "WS" + unitsHex([][]uint16{{'a'}, {}, {' ', ' '}, asciiUnits("5")}[g.r.Intn(4)]) + "." + g.methTok() + g.methTok()
 }
 
 func (g *gen) replTok() string {
@@ -638,6 +671,9 @@ func (g *gen) gapStr() []uint16 {
 
 func (g *gen) spaceTok() string {
 	r := g.r
+	if r.Chance(8) {
+		return g.wrapTok()
+	}
 	switch r.Intn(10) {
 	case 0, 1, 2, 3:
 		return "-"
@@ -719,6 +755,15 @@ func genC11(c *h.Ctx) {
 			}
 			c.Add("str "+sb.String()+" "+rt+" "+g.spaceTok()+" "+e, "env:str")
 		}
+	}
+	// scripted wrappers in every value position and as the space argument
+	for i := 0; i < c.N(600, 20000); i++ {
+		w := g.wrapTok()
+		for _, f := range []string{"%s", "A%s]", "O0061.%s}", "J%s", "AO0062.A%s]}]"} {
+			c.Add("str "+fmt.Sprintf(f, w)+" - -", "str:wrapper")
+		}
+		c.Add("str "+w+" f0 -", "str:wrapper")
+		c.Add("str AD3ff0000000000000] - "+w, "str:wrapper")
 	}
 	// the cut of a string gap after 10 code units: before, inside and after surrogate pairs, as a
 	// primitive and as a String object
